@@ -402,11 +402,15 @@ fn func_arg_to_native_expr(node: &FunctionArg) -> Result<Box<Expr>, QueryError> 
 }
 
 fn strip_quotes(ident: &str) -> String {
-    if ident.starts_with('`') || ident.starts_with('"') {
-        ident[1..ident.len() - 1].to_string()
-    } else {
-        ident.to_string()
+    for quote in ['`', '"'] {
+        if let Some(inner) = ident
+            .strip_prefix(quote)
+            .and_then(|rest| rest.strip_suffix(quote))
+        {
+            return inner.to_string();
+        }
     }
+    ident.to_string()
 }
 
 fn map_unary_operator(op: &UnaryOperator) -> Result<Func1Type, QueryError> {
